@@ -59,9 +59,9 @@ def _builtin_wrap(func, condition, snapshots):
 def wrap(func, condition, snapshots=()):
     """Return func wrapped with postcondition `condition` and the `snapshots` [(name, capture_fn), ...]."""
     if HAVE_ICONTRACT:
-        wrapped = icontract.ensure(condition, error=MonitorError)(func)
+        wrapped = icontract.ensure(condition, error=MonitorError, enabled=True)(func)  # enabled even under python -O
         for name, capture in snapshots:
-            wrapped = icontract.snapshot(capture, name=name)(wrapped)
+            wrapped = icontract.snapshot(capture, name=name, enabled=True)(wrapped)
         return wrapped
     return _builtin_wrap(func, condition, snapshots)
 
